@@ -30,8 +30,8 @@ def columns (acc : List Name) : List Upd → List Name
   | [] => acc
   | p :: rest => columns (acc ++ (p.map (·.1)).filter (fun k => !acc.contains k)) rest
 
-/-- `row.to_dict()`: the row's values in column order (steps that do not name every column
-    would yield NaN there — not modelled, see `uniform`) -/
+/-- `row.dropna().to_dict()`: the row's values in column order; a column the step does not name holds NaN in the
+    table and is skipped when the row is applied (`Gen.protocolSkipsUnnamed`, since the repair of F-C14-3) -/
 def rowDict (cols : List Name) (p : Upd) : Upd :=
   cols.filterMap fun k => (p.lookup k).map fun v => (k, v)
 
@@ -39,6 +39,11 @@ def makeProtocol (steps : List PStep) : Protocol :=
   let rows := makeRows 0 [] steps
   let cols := columns [] (rows.map (·.2))
   rows.map fun r => (r.1, rowDict cols r.2)
+
+/-- the steps as the table holds them: each step's values, listed in the table's column order -/
+def normSteps (steps : List PStep) : List PStep :=
+  let cols := columns [] (steps.map (·.2))
+  steps.map fun s => (s.1, rowDict cols s.2)
 
 def nodupNames : List Name → Bool
   | [] => true
@@ -101,6 +106,8 @@ def simulateProtocolTC {σ} (S : Sys σ) (s : Sim σ) (prot : Protocol) (pts : L
   match reached? s.segs with
   | .error e => (s, some e)
   | .ok tStart =>
+    -- `protocol.index + pd.Timedelta(...)`: an empty table has a RangeIndex, which cannot be shifted by a Timedelta
+    if prot.isEmpty then (s, some .typeError) else
     let prot' := prot.map fun r => (r.1 + tStart, r.2)
     let pts' := if rel then pts.map (· + tStart) else pts
     match pts'.getLast? with
@@ -147,20 +154,21 @@ def expandProtocolTC (pts : List Rat) (T : Rat) : List PStep → List Op
   | [] => []
   | (d, p) :: rest => .updPars p :: .timeCourse (stepPoints pts T (T + d)) :: expandProtocolTC pts (T + d) rest
 
-/-- the specification machine's protocol calls: the explicit calls, run until one raises -/
+/-- the specification machine's protocol calls: the explicit calls (each step's values as the table lists them:
+    `normSteps`), run until one raises -/
 def Spec.protocol {σ} (S : Sys σ) (a : Spec σ) (steps : List PStep) (n : Nat) : Out (Spec σ) :=
-  if a.failed then (a, none) else Spec.runStop S a (expandProtocol a.now n steps)
+  if a.failed then (a, none) else Spec.runStop S a (expandProtocol a.now n (normSteps steps))
 
 def Spec.protocolTC {σ} (S : Sys σ) (a : Spec σ) (steps : List PStep) (pts : List Rat) (rel : Bool) :
     Out (Spec σ) :=
   if a.failed then (a, none) else
+  if steps.isEmpty then (a, some .typeError) else
   let pts' := if rel then pts.map (· + a.now) else pts
   match pts'.getLast? with
   | none => (a, some .indexError)
   | some last =>
     if last ≤ a.now then (a, some .valueError) else
-    if steps.isEmpty then (a, some .indexError) else
-    Spec.runStop S a (expandProtocolTC pts' a.now steps)
+    Spec.runStop S a (expandProtocolTC pts' a.now (normSteps steps))
 
 def Spec.stepP {σ} (S : Sys σ) (a : Spec σ) : OpP → Out (Spec σ)
   | .basic op => Spec.step S a op
@@ -176,8 +184,9 @@ def Spec.runP {σ} (S : Sys σ) (a : Spec σ) : List OpP → Spec σ × List (Op
 
 /-! ### the protocols the theorems cover -/
 
-/-- positive durations, same parameter names in every step -/
-def wfSteps (steps : List PStep) : Bool := steps.all (fun s => decide (0 < s.1)) && uniform steps
+/-- positive durations (what `make_protocol` needs for its dict keyed by cumulative time not to merge or reorder
+    steps).  Which parameters a step names, and in which order, is free. -/
+def wfSteps (steps : List PStep) : Bool := steps.all (fun s => decide (0 < s.1))
 
 /-- every protocol of the history is well-formed (the property's quantifier: positive durations, the
     documented same-parameters-in-every-step form) -/
